@@ -1,4 +1,5 @@
 import GmqttVerif.Model.Fed.Route
+import GmqttVerif.Model.Fed.Node
 import Driver.Common
 /- line protocol for `Federation.sendMessage` (C17). -/
 namespace Driver.FedRoute
@@ -15,36 +16,47 @@ def showOut (o : RouteOut) : String :=
 def setCnt (sent : List (String × Nat)) (t : String) (n : Nat) : List (String × Nat) :=
   (sent.filter (·.1 != t)) ++ [(t, n)]
 
-def step (i : RouteIn) (line : String) : RouteIn × String :=
+/-- per peer the queued events as `id:topic` (all events of this driver are Message events) -/
+def showQueues (n : Node) : String :=
+  let one (p : String × EQ Body) : String :=
+    p.1 ++ "=" ++ String.intercalate "," (p.2.items.map (fun e => match e.body with
+      | .msg m => s!"{e.id}:{if m.topic == "" then "-" else m.topic}"
+      | _ => s!"{e.id}:?"))
+  "qs=[" ++ String.intercalate ";" (sortS (n.queues.map one)) ++ "]"
+
+def step (n : Node) (line : String) : Node × String :=
   match words line with
-  | ["new", self] => ({ self := self, peers := [], fedSubs := [], locals := [], sent := [] }, "ok")
-  | ["peer", n] =>
-    if n == i.self || i.peers.contains n then (i, "ok") else ({ i with peers := i.peers ++ [n] }, "ok")
-  | ["fsub", n, share, filter] =>
-    let k : SubKey := { node := n, share := optStr share, filter := filter }
-    (if i.fedSubs.contains k then i else { i with fedSubs := i.fedSubs ++ [k] }, "ok")
-  | ["funsub", n, topic] =>
+  | ["new", self] => ({ recv := Recv.new self, locals := [], sent := [], queues := [] }, "ok")
+  | ["peer", p] =>
+    if p == n.recv.self || n.recv.peers.contains p then (n, "ok")
+    else ({ n with recv := n.recv.nodeJoin p, queues := n.queues ++ [(p, EQ.empty)] }, "ok")
+  | ["fsub", p, share, filter] =>
+    let k : SubKey := { node := p, share := optStr share, filter := filter }
+    (if n.recv.subs.contains k then n else { n with recv := { n.recv with subs := n.recv.subs ++ [k] } }, "ok")
+  | ["funsub", p, topic] =>
     let st := splitTopic topic
-    let k : SubKey := { node := n, share := st.1, filter := st.2 }
-    ({ i with fedSubs := i.fedSubs.filter (· != k) }, "ok")
+    let k : SubKey := { node := p, share := st.1, filter := st.2 }
+    ({ n with recv := { n.recv with subs := n.recv.subs.filter (· != k) } }, "ok")
   | ["lsub", c, share, filter] =>
     let k : LocalSub := { client := c, share := optStr share, filter := filter }
-    (if i.locals.contains k then i else { i with locals := i.locals ++ [k] }, "ok")
+    (if n.locals.contains k then n else { n with locals := n.locals ++ [k] }, "ok")
   | ["lunsub", c, topic] =>
     let st := splitTopic topic
     let k : LocalSub := { client := c, share := st.1, filter := st.2 }
-    ({ i with locals := i.locals.filter (· != k) }, "ok")
-  | ["cnt", t, n] => ({ i with sent := setCnt i.sent t (natOf n) }, "ok")
+    ({ n with locals := n.locals.filter (· != k) }, "ok")
+  | ["cnt", t, k] => ({ n with sent := setCnt n.sent t (natOf k) }, "ok")
   | ["recvpub", _, _, _] =>
     -- `Node.onStreamEvent` touches neither the peer queues nor the hook layer (C17 `receiver_no_reforward`)
-    (i, "hookcalls=0 queued=0")
+    (n, "hookcalls=0 queued=0")
   | ["pub", topic, ret] =>
-    let o := route i (optStr topic) (ret == "1")
-    ({ i with sent := o.sent }, showOut o)
-  | _ => (i, "bad-op")
+    let m : Msg := { topic := optStr topic, retained := ret == "1", payload := 1, qos := 1 }
+    let o := route n.routeIn m.topic m.retained
+    let r := n.onMsgArrived m
+    (r.1, showOut o ++ " " ++ showQueues r.1)
+  | _ => (n, "bad-op")
 
 end Driver.FedRoute
 
 def main : IO Unit := do
   Driver.loop (← IO.getStdin) (← IO.getStdout)
-    ({ self := "self", peers := [], fedSubs := [], locals := [], sent := [] } : GmqttVerif.Fed.RouteIn) Driver.FedRoute.step
+    ({ recv := GmqttVerif.Fed.Recv.new "self", locals := [], sent := [], queues := [] } : GmqttVerif.Fed.Node) Driver.FedRoute.step
